@@ -35,7 +35,7 @@ def register(prop, quick, thorough, level, rule, assumptions, probes=(), compone
 register(
     "C08",
     quick=600,
-    thorough=14000,
+    thorough=5000,
     level="exploration",
     rule=(
         "one run = one generated scenario (estimator kind, binner, local peer estimator, data, labels, "
@@ -66,7 +66,7 @@ register(
 register(
     "C02",
     quick=1300,
-    thorough=30000,
+    thorough=24000,
     level="fault_enumeration",
     rule=(
         "one run = one generated scenario (estimator class from the registry with peers in every estimator slot, "
@@ -97,7 +97,7 @@ register(
 register(
     "C17",
     quick=4000,
-    thorough=150000,
+    thorough=120000,
     level="exploration",
     rule=(
         "one run = one IntervalRegressor scenario (n in 1..12, alpha with alpha*n away from half-integers, "
@@ -168,7 +168,7 @@ register(
 register(
     "C04",
     quick=3000,
-    thorough=150000,
+    thorough=120000,
     level="exploration",
     rule=(
         "one run = one fitted estimator with row-wise semantics from the registry (balanced prediction of the "
